@@ -16,7 +16,10 @@ Definition good_char (x : N) : bool := x <=? MAXC.
 Definition good_string (a : list N) : bool := forallb (fun x => x <=? MAXC) a.
 
 (* SmtString::is_good: n < MAX_LENGTH as usize && good_string(&self.s)   (note the strict <) *)
-Definition smt_is_good (s : word) : bool := (Z.of_nat (length s) <? MAX_LENGTH)%Z && good_string s.
+(* after repair D12: the bound is inclusive, as in SmtString::make (which panics for n > MAX_LENGTH) *)
+Definition smt_is_good (s : word) : bool := (Z.of_nat (length s) <=? MAX_LENGTH)%Z && good_string s.
+(* the pinned code used the strict bound *)
+Definition smt_is_good_prefix (s : word) : bool := (Z.of_nat (length s) <? MAX_LENGTH)%Z && good_string s.
 Definition smt_len (s : word) : nat := length s.
 Definition smt_is_empty (s : word) : bool := match s with [] => true | _ :: _ => false end.
 (* SmtString::char(i) = self.s[i]; None = index out of range *)
